@@ -26,8 +26,10 @@ EXCEPTIONS = [
     "established every unprotected alert must be inert; a NON-fatal one must be inert in every phase",
     "X2 unprotected handshake fragments that decode: the handshake is unauthenticated until Finished, forged "
     "flight content may derail or abort a handshake in progress (never panic / never wedge an ESTABLISHED one)",
-    "X3 unprotected application_data / change_cipher_spec / ACK / RRC records that decode: unexpected_message "
-    "as coded (conn.go handleApplicationDataRecord, handleRecordContent)",
+    "X3 unprotected return_routability_check records that decode: unexpected_message as coded (pinned by the suite); an "
+    "unprotected change_cipher_spec while the handshake is running (part of the unauthenticated handshake). "
+    "Unprotected application_data and ACK records, and change_cipher_spec once established or claiming an epoch, "
+    "must be inert",
     "X4 records that authenticate under the session keys (class auth): a malformed one is answered with a "
     "fatal alert / Read error, an authenticated fatal alert or close_notify closes",
 ]
@@ -191,8 +193,9 @@ def obs_violation(o):
     e = o["eff"]
     if not e:
         return None
-    if cls.startswith("alert:") and not o["est"]:
-        return None  # exception X1: an unprotected fatal alert / close_notify ends a handshake in progress
+    if (cls.startswith("alert:") or cls == "ccs0") and not o["est"]:
+        return None  # exception X1: an unprotected fatal alert / close_notify ends a handshake in progress; an
+        #              unprotected change_cipher_spec is part of the (unauthenticated) handshake while it runs
     what = []
     if e.get("hs_err"):
         what.append("aborts the handshake in progress (%s)" % e["hs_err"].replace("handshake failed: ", ""))
@@ -214,6 +217,10 @@ def drop_kind(cls):
         return "unprotected warning alert (not fatal, not close_notify)"
     if cls.startswith("alert:"):
         return "unprotected fatal alert / close_notify"
+    if cls == "app0":
+        return "unprotected application_data record"
+    if cls == "ccs0":
+        return "unprotected change_cipher_spec record"
     if cls == "undec:ccs-epoch":
         return "change_cipher_spec-typed record claiming a protected epoch (taken as cleartext, never authenticated)"
     if cls.startswith("unsplit"):
@@ -230,6 +237,10 @@ def site_of(cls):
         return "conn.go classifyReadLoopError / deliverReadError (non-fatal alert)"
     if cls.startswith("alert:"):
         return "conn.go handleRecordContent (alert record of epoch 0 on an established connection)"
+    if cls == "app0":
+        return "conn.go handleApplicationDataRecord (epoch 0)"
+    if cls == "ccs0":
+        return "conn.go handleChangeCipherSpecRecord"
     if cls == "undec:ccs-epoch":
         return ("pkg/crypto/ciphersuite *.Decrypt (change_cipher_spec records returned unchanged) / conn.go "
                 "handleIncomingPacket (RecordLayer.Unmarshal error at epoch >= 1 -> fatal alert + error)")
@@ -246,7 +257,8 @@ def model_term(o):
     k = {"empty": "KEmpty", "badhdr": "KBadHeader", "forged": "KForged", "clear": None, "auth": None,
          "warn": "KWarnAlert" if o.get("fresh") else "KUndecStale",
          "alert:fatal": "KFatalAlert" if o.get("fresh") else "KUndecStale",
-         "alert:close": "KCloseNotify" if o.get("fresh") else "KUndecStale"}.get(cls, "?")
+         "alert:close": "KCloseNotify" if o.get("fresh") else "KUndecStale",
+         "app0": "KClearApp", "ccs0": "KClearCcs" if o["est"] else None}.get(cls, "?")
     if k is None or o.get("nrec", 0) > 1:
         return None  # only single-record datagrams (and datagrams that do not split) have a one-step prediction
     if cls.startswith("unsplit:"):
@@ -254,7 +266,7 @@ def model_term(o):
     elif cls == "undec:epoch13":
         k = "KForged"
     elif cls == "undec:ccs-epoch":
-        k = "KForged"  # C08_ccs_undecodable_no_output: no output whatever epoch it claims (82cb644)
+        k = "KCcsEpoch"  # C08_ccs_claiming_epoch_no_output: no output whatever epoch it claims, whatever its body
     elif cls.startswith("undec:"):
         k = "KUndecHs" if cls == "undec:hs" else ("KUndecContent" if o.get("fresh") else "KUndecStale")
     e = o["eff"]
